@@ -328,6 +328,12 @@ class C17(Suite):
             lo, hi = int_type_range(t)
             if lo <= k <= hi and k != 0 and finite(a * k):
                 out += ["mul_s:%s %d %d" % (t, a, k), "div_s:%s %d %d" % (t, a * k, k)]
+            # a*n for every integral type over its whole range (a small so that the n-fold sum is finite)
+            t = rng.choice(INT_TYPES); lo, hi = int_type_range(t)
+            k = rng.choice([hi, hi - 1, (hi + 1) // 2, (hi + 1) // 2 + 1, gen.strat(rng, int(t[1:]) - 1, signed=False)]) if rng.random() < 0.7 else lo
+            a = gen.strat(rng, 8)
+            if lo <= k <= hi and k != 0 and finite(a * k):
+                out += ["mul_s:%s %d %d" % (t, a, k), "rmul_s:%s %d %d" % (t, a, k), "div_s:%s %d %d" % (t, a * k, k)]
         for a in rng.sample(fin, min(len(fin), 200)):
             out += ["add %d %d" % (a, -a), "sub %d %d" % (a, a), "mul %d 65536" % a, "div %d 65536" % a]
         # a-b == a+(-b) and commutativity at the overflow boundaries
@@ -480,12 +486,21 @@ class C16(Suite):
         for t in INT_TYPES:
             for nn in gen.type_values(rng, t, m, pool):
                 for a in some_a(2):
-                    for f in ("add_i", "radd_i", "addeq_i", "sub_i", "rsub_i", "subeq_i", "mul_s", "rmul_s", "muleq_s", "div_s", "diveq_s", "rdiv_i"):
+                    for f in ("add_i", "radd_i", "addeq_i", "sub_i", "rsub_i", "subeq_i", "mul_s", "rmul_s", "muleq_s", "div_s", "diveq_s", "rdiv_i",
+                              "ref_add_i", "ref_sub_i", "ref_rsub_i", "ref_rdiv_i"):
                         out.append("%s:%s %d %d" % (f, t, a, nn))
         for b in float_patterns(rng, m * 20):
             for a in some_a(1):
-                for f in ("add_f", "radd_f", "addeq_f", "sub_f", "rsub_f", "subeq_f", "mul_f", "rmul_f", "muleq_f", "div_f", "rdiv_f", "diveq_f"):
+                for f in ("add_f", "radd_f", "addeq_f", "sub_f", "rsub_f", "subeq_f", "mul_f", "rmul_f", "muleq_f", "div_f", "rdiv_f", "diveq_f",
+                          "ref_add_f", "ref_sub_f", "ref_rsub_f", "ref_mul_f", "ref_div_f", "ref_rdiv_f"):
                     out.append("%s %d %d" % (f, a, b))
+        # the binade where float rounding of value*65536+0.5f is visible (odd mantissas in [128, 256) and neighbours)
+        for _ in range(m * 6):
+            e = rng.choice([6, 7, 7, 7, 8, 9, 14, 20, 30])
+            b = gen.f2b(float(2 ** e)) + rng.randrange(0, 2 ** 23)
+            for a in (65536, gen.strat(rng, 30)):
+                for f in ("add_f", "mul_f", "sub_f", "rsub_f", "ref_add_f", "ref_mul_f", "ref_sub_f", "ref_rsub_f"):
+                    out.append("%s %d %d" % (f, a, b)); out.append("%s %d %d" % (f, a, b | (1 << 31)))
         for b in double_patterns(rng, m * 4):
             for a in some_a(1):
                 for f in ("add_d", "radd_d", "sub_d", "rsub_d", "mul_d", "rmul_d", "div_d", "rdiv_d"):
@@ -495,6 +510,7 @@ class C16(Suite):
         return tag == "u64" and a[1] >= 2**63 or abs(a[0]) >= 2**46 or fn.endswith("_d")
     def oracle(self, fn, tag, a, r):
         x, t = a
+        if fn.startswith("ref_"): fn = fn[4:]
         if fn.endswith("_d"):
             d = f64_value(t)
             xa = float(x) / 65536.0
@@ -536,6 +552,22 @@ class C16(Suite):
             if w is None: return None
             errs.append(w)
         return "no admissible conversion of %r explains the result: %s" % (v, errs[0])
+
+def c16_post(self, res):
+    bad = []
+    REF = {"add_i": "ref_add_i", "radd_i": "ref_add_i", "addeq_i": "ref_add_i", "sub_i": "ref_sub_i", "subeq_i": "ref_sub_i",
+           "rsub_i": "ref_rsub_i", "rdiv_i": "ref_rdiv_i",
+           "add_f": "ref_add_f", "radd_f": "ref_add_f", "addeq_f": "ref_add_f", "sub_f": "ref_sub_f", "subeq_f": "ref_sub_f", "rsub_f": "ref_rsub_f",
+           "mul_f": "ref_mul_f", "rmul_f": "ref_mul_f", "muleq_f": "ref_mul_f", "div_f": "ref_div_f", "diveq_f": "ref_div_f", "rdiv_f": "ref_rdiv_f"}
+    for l, r in res.items():
+        head, rest = l.split(" ", 1)
+        fn, _, tag = head.partition(":")
+        if fn in REF:
+            l2 = REF[fn] + (":" + tag if tag else "") + " " + rest
+            if l2 in res and res[l2] != r:
+                bad.append((l, "a op t differs from a op fixed_t(t): %s -> %s, %s -> %s" % (l, r, l2, res[l2])))
+    return bad
+C16.post = c16_post
 
 def pydiv(a, b):
     if b == 0:
